@@ -1718,6 +1718,11 @@ def _divisions_from_statistics(aggregated_stats, index_name):
     if not sorted_minmax.is_monotonic_increasing:
         return tuple([None] * (len(aggregated_stats) + 1)), None
     for file_min, file_max in sorted_minmax:
+        if last_max is not None and file_min < last_max:
+            # The ranges of two files overlap ((min, max) tuples sort
+            # lexicographically, which does not notice that): the data is not
+            # partitioned by the index
+            return tuple([None] * (len(aggregated_stats) + 1)), None
         divisions.append(file_min)
         last_max = file_max
     divisions.append(last_max)
